@@ -566,7 +566,131 @@ fn big_check<P>(s: &i_tree::verif::VerifSnapshot<P>, key: impl Fn(&P) -> i64, wa
     Ok(())
 }
 
+/// probes for the predecessor-handle and neighbour-step monitors on a large tree: both ends of the
+/// key range (where the tree is deepest after ordered insertion) and a random sample in between
+fn big_probes(n: usize, sorted: &[i32], rng: &mut Rng) -> Vec<i32> {
+    let mut v: Vec<i32> = vec![-1, n as i32, n as i32 + 5];
+    for i in 0..96.min(sorted.len()) {
+        v.push(sorted[i]);
+        v.push(sorted[sorted.len() - 1 - i]);
+    }
+    for _ in 0..1500 {
+        v.push(rng.below(n as u64 + 1) as i32);
+    }
+    v
+}
+
+fn expected_pred(sorted: &[i32], p: i32) -> Option<i32> {
+    let i = sorted.partition_point(|&k| k <= p);
+    if i == 0 {
+        None
+    } else {
+        Some(sorted[i - 1])
+    }
+}
+
+fn big_map_handles(t: &mut MapTree<MKey, MVal>, n: usize, sorted: &[i32], rng: &mut Rng, rep: &mut Report) -> Result<(), Fail> {
+    for p in big_probes(n, sorted, rng) {
+        let want = expected_pred(sorted, p);
+        let h = t.first_index_less(MKey(p));
+        let h2 = t.first_index_less_by(|s: MKey| s.0.cmp(&p));
+        rep.evaluations += 1;
+        rep.counters.inc("big_handle_probes");
+        if h != h2 {
+            return Err(Fail::new("first_index_less_by:disagrees-with-key-form", format!("n={} probe {}: key form {} comparator form {}", n, p, h as i32, h2 as i32)));
+        }
+        match want {
+            None => {
+                if h != i_tree::EMPTY_REF {
+                    return Err(Fail::new("first_index_less:handle-instead-of-sentinel", format!("n={} probe {} returned handle {}", n, p, h)));
+                }
+            }
+            Some(k) => {
+                if h == i_tree::EMPTY_REF {
+                    return Err(Fail::new("first_index_less:sentinel-instead-of-handle", format!("n={} probe {}: reference key {}", n, p, k)));
+                }
+                let v = t.value_by_index(h);
+                if v.key_copy != k || v.id != k as u64 {
+                    return Err(Fail::new("first_index_less:wrong-entry", format!("n={} probe {}: handle designates key {} id {}, reference key {}", n, p, v.key_copy, v.id, k)));
+                }
+                // write through the handle and read back by key
+                *t.value_by_index_mut(h) = MVal::new(k, k as u64);
+                match t.get_value(MKey(k)) {
+                    Some(v) if v.id == k as u64 && v.key_copy == k => {}
+                    _ => return Err(Fail::new("get-after-write-through-handle:wrong-value", format!("n={} key {}", n, k))),
+                }
+            }
+        }
+    }
+    Ok(())
+}
+
+fn big_set_handles(t: &SetTree<SKey, SVal>, n: usize, sorted: &[i32], rng: &mut Rng, rep: &mut Report, steps: bool) -> Result<(), Fail> {
+    for p in big_probes(n, sorted, rng) {
+        let want = expected_pred(sorted, p);
+        let h = t.first_index_less(&SKey(p));
+        let h2 = t.first_index_less_by(|s: &SKey| s.0.cmp(&p));
+        rep.evaluations += 1;
+        rep.counters.inc("big_handle_probes");
+        if !steps && h != h2 {
+            return Err(Fail::new("first_index_less_by:disagrees-with-key-form", format!("n={} probe {}: key form {} comparator form {}", n, p, h as i32, h2 as i32)));
+        }
+        match want {
+            None => {
+                if !steps && h != i_tree::EMPTY_REF {
+                    return Err(Fail::new("first_index_less:handle-instead-of-sentinel", format!("n={} probe {} returned handle {}", n, p, h)));
+                }
+            }
+            Some(k) => {
+                if h == i_tree::EMPTY_REF {
+                    if steps {
+                        continue;
+                    }
+                    return Err(Fail::new("first_index_less:sentinel-instead-of-handle", format!("n={} probe {}: reference key {}", n, p, k)));
+                }
+                let v = t.value_by_index(h);
+                if v.key.0 != k {
+                    if steps {
+                        continue;
+                    }
+                    return Err(Fail::new("first_index_less:wrong-entry", format!("n={} probe {}: handle designates key {}, reference key {}", n, p, v.key.0, k)));
+                }
+                if steps {
+                    let i = sorted.partition_point(|&x| x < k);
+                    let next = sorted.get(i + 1).copied();
+                    let prev = if i > 0 { Some(sorted[i - 1]) } else { None };
+                    for (name, got, want) in [("index_after", t.index_after(h), next), ("index_before", t.index_before(h), prev)] {
+                        rep.counters.inc("big_step_probes");
+                        match want {
+                            None => {
+                                if got != i_tree::EMPTY_REF {
+                                    return Err(Fail::new(format!("{}:handle-instead-of-sentinel", name), format!("n={} from key {}: returned handle {}", n, k, got)));
+                                }
+                            }
+                            Some(w) => {
+                                if got == i_tree::EMPTY_REF {
+                                    return Err(Fail::new(format!("{}:sentinel-instead-of-handle", name), format!("n={} from key {}: reference key {}", n, k, w)));
+                                }
+                                if t.value_by_index(got).key.0 != w {
+                                    return Err(Fail::new(format!("{}:wrong-entry", name), format!("n={} from key {}: got key {}, reference {}", n, k, t.value_by_index(got).key.0, w)));
+                                }
+                            }
+                        }
+                    }
+                }
+            }
+        }
+    }
+    Ok(())
+}
+
 pub fn big_case(coll: &str, n: usize, order: &str, hint: usize, seed: u64, rep: &mut Report) -> Result<(), Fail> {
+    big_case_with(coll, n, order, hint, seed, rep, "")
+}
+
+/// `probes`: "" (structure and storage only), "handle" (C08 monitors), "steps" (C09 monitors)
+pub fn big_case_with(coll: &str, n: usize, order: &str, hint: usize, seed: u64, rep: &mut Report, probes: &str) -> Result<(), Fail> {
+    let judge_structure = probes.is_empty();
     let mut rng = Rng::new(seed).derive(n as u64 ^ 0xB16);
     let keys = order_keys(n, order, &mut rng);
     let mut del = keys.clone();
@@ -587,15 +711,25 @@ pub fn big_case(coll: &str, n: usize, order: &str, hint: usize, seed: u64, rep: 
             for (i, &k) in keys.iter().enumerate() {
                 ctx::set(n as u64, i as u64);
                 t.insert(MKey(k), MVal::new(k, k as u64));
-                if checkpoints.contains(&(i + 1)) {
+                if judge_structure && checkpoints.contains(&(i + 1)) {
                     big_check(&t.verif_snapshot(|k, _| k.0), |p| *p as i64, i + 1, i + 1, hint, rep)?;
                 }
             }
+            if probes == "handle" {
+                let sorted: Vec<i32> = (0..n as i32).collect();
+                big_map_handles(&mut t, n, &sorted, &mut rng, rep)?;
+            }
             for (i, &k) in del.iter().enumerate().take(n * 3 / 4) {
                 t.delete(MKey(k));
-                if checkpoints.contains(&(i + 1)) {
+                if judge_structure && checkpoints.contains(&(i + 1)) {
                     big_check(&t.verif_snapshot(|k, _| k.0), |p| *p as i64, n - i - 1, n, hint, rep)?;
                 }
+            }
+            if probes == "handle" {
+                let mut sorted: Vec<i32> = del.iter().skip(n * 3 / 4).copied().collect();
+                sorted.sort_unstable();
+                big_map_handles(&mut t, n, &sorted, &mut rng, rep)?;
+                return Ok(());
             }
             // churn at bounded population: storage must not grow
             let mut absent: Vec<i32> = del.iter().take(n * 3 / 4).copied().collect();
@@ -626,14 +760,26 @@ pub fn big_case(coll: &str, n: usize, order: &str, hint: usize, seed: u64, rep: 
             for (i, &k) in keys.iter().enumerate() {
                 ctx::set(n as u64, i as u64);
                 t.insert(SVal::new(k, k as u64));
-                if checkpoints.contains(&(i + 1)) {
+                if judge_structure && checkpoints.contains(&(i + 1)) {
                     big_check(&t.verif_snapshot(|v| v.key.0), |p| *p as i64, i + 1, i + 1, hint, rep)?;
                 }
             }
+            if !probes.is_empty() {
+                let sorted: Vec<i32> = (0..n as i32).collect();
+                big_set_handles(&t, n, &sorted, &mut rng, rep, probes == "steps")?;
+            }
             for (i, &k) in del.iter().enumerate().take(n * 3 / 4) {
                 t.delete(&SKey(k));
-                if checkpoints.contains(&(i + 1)) {
+                if judge_structure && checkpoints.contains(&(i + 1)) {
                     big_check(&t.verif_snapshot(|v| v.key.0), |p| *p as i64, n - i - 1, n, hint, rep)?;
+                }
+            }
+            if !probes.is_empty() {
+                let mut sorted: Vec<i32> = del.iter().skip(n * 3 / 4).copied().collect();
+                sorted.sort_unstable();
+                big_set_handles(&t, n, &sorted, &mut rng, rep, probes == "steps")?;
+                if probes == "handle" {
+                    return Ok(());
                 }
             }
             // full walk in both directions over what is left
@@ -646,7 +792,7 @@ pub fn big_case(coll: &str, n: usize, order: &str, hint: usize, seed: u64, rep: 
                     seen.push(t.value_by_index(h).key.0);
                     h = t.index_after(h);
                 }
-                if seen != left {
+                if seen != left && (judge_structure || probes == "steps") {
                     return Err(Fail::new("walk-forward:wrong-sequence", format!("forward walk over {} values visited {}", left.len(), seen.len())));
                 }
                 rep.counters.add("walk_steps", seen.len() as u64);
@@ -716,7 +862,14 @@ pub fn suite_big(cfg: &Cfg, rep: &mut Report) {
                     continue;
                 }
                 let hint = [0usize, 1, 8, 9, 300][(idx % 5) as usize];
-                let line = format!("#big coll={} n={} order={} hint={} seed={}", coll, n, order, hint, cfg.seed);
+                let probes = cfg.str_or("probes", "").to_string();
+                if !probes.is_empty() && coll == "keytree" {
+                    continue;
+                }
+                if probes == "steps" && coll != "settree" {
+                    continue;
+                }
+                let line = format!("#big coll={} n={} order={} hint={} seed={} probes={}", coll, n, order, hint, cfg.seed, probes);
                 if cfg.emit {
                     println!("CTOR case");
                     println!("OP {}", line);
@@ -724,7 +877,8 @@ pub fn suite_big(cfg: &Cfg, rep: &mut Report) {
                 }
                 rep.histories += 1;
                 rep.counters.inc(&format!("big_{}", coll));
-                if let Err(f) = big_case(coll, n, order, hint, cfg.seed, rep) {
+                rep.counters.max("max_entries_built", n as u64);
+                if let Err(f) = big_case_with(coll, n, order, hint, cfg.seed, rep, &probes) {
                     rep.violation(Viol { sig: format!("{}:{}", coll, f.sig), msg: f.msg, family: "case".into(), coll: coll.into(), ctor: "case".into(), ops: vec![line], confirmed: true });
                 }
             }
@@ -874,7 +1028,7 @@ pub fn replay(cfg: &Cfg, rep: &mut Report) {
             let r = if l.starts_with("#export-size") {
                 export_case(&val("coll"), n, &val("order"), val("expired_every").parse().unwrap_or(0), seed, rep)
             } else if l.starts_with("#big") {
-                big_case(&val("coll"), n, &val("order"), val("hint").parse().unwrap_or(8), seed, rep)
+                big_case_with(&val("coll"), n, &val("order"), val("hint").parse().unwrap_or(8), seed, rep, &val("probes"))
             } else {
                 Ok(())
             };
